@@ -22,6 +22,7 @@ type BankKnobs struct {
 	PInfo      int
 	PInfoShare int
 	PFaultKind int
+	PLocPC     int // a constructor is provided with LocationForPC(code pointer of another bank literal)
 	// NoInvokeEK: invoked functions never fail with an error that wraps a
 	// foreign dig.Error (C19: whether such an error "can be visualized" is
 	// not decidable from the error value alone - unspecified zone)
@@ -238,8 +239,11 @@ func GenBankCase(t *rapid.T, bk BankKnobs) *Case {
 			if o.Info {
 				o.InfoSlot = g.infoSlot()
 			}
+			if g.pct(bk.PLocPC, "locpc") {
+				o.LocPC = fmt.Sprintf("bank%d", g.pick(len(BankSpecs), "locpck"))
+			}
 			op := Op{K: OpProvide, S: s, F: f}
-			if o.Export || o.CB || o.Info {
+			if o.Export || o.CB || o.Info || o.LocPC != "" {
 				op.O = o
 			}
 			mf := NewMFn(f, op.O, KCtor, s)
